@@ -469,6 +469,43 @@ func init() {
 		return Val{T: types.Typ[types.String], L: []string{app(ex.declFun("uf|tolower", []string{sStr}, sStr), c.args[0].L[0])}}
 	}
 
+	// ---- file system effect model (DESIGN 2.8): content ids per file name; 0 absent, -1 partial/corrupt, >0 a complete content ----
+	s["os.WriteFile"] = func(ex *Exec, fr *Frame, st *State, c *callCtx) Val {
+		name := c.args[0].L[0]
+		cid := ex.fresh("content", sInt)
+		ex.assume("true", "(> "+cid+" 0)")
+		ex.ghostVars["fs_written"] = Val{T: types.Typ[types.UnsafePointer], L: []string{cid}}
+		fs := ex.heapGet(st, "FS|c", sArr(sStr, sInt))
+		// a crash inside WriteFile leaves the file truncated or partially written
+		ex.crashCheck(fr, st, store(fs, name, "(- 1)"), c.pos, "os.WriteFile truncates the file and writes it in place")
+		okv := ex.fresh("writeok", sBool)
+		e := ex.freshErr(st, "writefile")
+		// on error the file may be partial as well
+		ex.heapSet(st, "FS|c", sArr(sStr, sInt), store(fs, name, ite(okv, cid, "(- 1)")))
+		return Val{T: errType(), L: []string{ite(okv, "0", e.L[0]), ite(okv, "0", e.L[1])}}
+	}
+	s["os.Rename"] = func(ex *Exec, fr *Frame, st *State, c *callCtx) Val {
+		from, to := c.args[0].L[0], c.args[1].L[0]
+		fs := ex.heapGet(st, "FS|c", sArr(sStr, sInt))
+		after := store(store(fs, to, sel(fs, from)), from, "0")
+		// rename is atomic: a crash leaves either the state before or the state after
+		ex.crashCheck(fr, st, after, c.pos, "os.Rename replaces the target atomically")
+		okv := ex.fresh("renameok", sBool)
+		e := ex.freshErr(st, "rename")
+		ex.heapSet(st, "FS|c", sArr(sStr, sInt), ite(okv, after, fs))
+		return Val{T: errType(), L: []string{ite(okv, "0", e.L[0]), ite(okv, "0", e.L[1])}}
+	}
+	s["os.Remove"] = func(ex *Exec, fr *Frame, st *State, c *callCtx) Val {
+		name := c.args[0].L[0]
+		fs := ex.heapGet(st, "FS|c", sArr(sStr, sInt))
+		after := store(fs, name, "0")
+		ex.crashCheck(fr, st, after, c.pos, "os.Remove deletes the file")
+		okv := ex.fresh("removeok", sBool)
+		e := ex.freshErr(st, "remove")
+		ex.heapSet(st, "FS|c", sArr(sStr, sInt), ite(okv, after, fs))
+		return Val{T: errType(), L: []string{ite(okv, "0", e.L[0]), ite(okv, "0", e.L[1])}}
+	}
+
 	// ---- reflect (only what NewGroup uses) ----
 	s["reflect.ValueOf"] = func(ex *Exec, fr *Frame, st *State, c *callCtx) Val {
 		a := c.args[0]
@@ -781,4 +818,35 @@ func (ex *Exec) containsTerm(st *State, s Val, x Val) string {
 	mem := sel(ex.heapGet(st, k, srt), s.L[0])
 	f := ex.declFun("uf|contains|"+sortKey(ls[0].Sort), []string{sArr(bv64, ls[0].Sort), bv64, bv64, ls[0].Sort}, sBool)
 	return app(f, mem, s.L[1], s.L[2], x.L[0])
+}
+
+
+// crashCheck: the crash invariants of the function under verification must hold in the file system state fsTerm
+// that a crash inside the current effectful call can leave behind.
+func (ex *Exec) crashCheck(fr *Frame, st *State, fsTerm string, pos token.Pos, why string) {
+	root := ex.rootFrame
+	if root == nil || root.ct == nil || len(root.ct.CrashInvs) == 0 {
+		return
+	}
+	cs := st.clone()
+	cs.heap["FS|c"] = fsTerm
+	vars := map[string]Val{}
+	for k, v := range root.params {
+		vars[k] = v
+	}
+	for k, v := range ex.ghostVars {
+		vars[k] = v
+	}
+	for _, cl := range root.ct.CrashInvs {
+		en := ex.newEnv(root, cs, ex.preState, vars)
+		t, err := en.evalBool(cl.E)
+		if err != nil {
+			ex.errors = append(ex.errors, fmt.Sprintf("%s: crash invariant: %v", cl.Line, err))
+			continue
+		}
+		o := ex.oblige(fr, st, "crash", cl.Label, t, pos, "if the process dies here ("+why+") the crash invariant "+cl.Src+" must hold: "+ex.srcLine(pos))
+		if o != nil {
+			o.Props = cl.Props
+		}
+	}
 }
